@@ -509,6 +509,10 @@ class DAGRunConcurrentManager(DAGRunManagerLike):
                 # We must unlock descendants because the next OneOf subgraph should start the process.
                 # Otherwise, the entire subgraph will be locked.
                 await self.__unlock_descendants(node_id)
+
+                # The failed node may be several steps away from the destination of the OneOf subgraph. The one who
+                # waits for the result of the subgraph must be woken up as well.
+                await self.__unlock_itself(dag.dest)
                 return None
 
             if self._is_switch(node_id):
@@ -618,6 +622,10 @@ class DAGRunConcurrentManager(DAGRunManagerLike):
                 self._node_storage.set_node_result(node_id, error)
                 await self.__unlock_itself(node_id)
                 await self.__unlock_descendants(node_id)
+
+                # The failed node may be several steps away from the destination of the OneOf subgraph. The one who
+                # waits for the result of the subgraph must be woken up as well.
+                await self.__unlock_itself(dag.dest)
                 return None
 
             await self.__raise_exc(error)
